@@ -21,11 +21,13 @@ fn main() {
         let depth: usize = args.get(4).and_then(|s| s.parse().ok()).unwrap_or(20);
         let timeout: u64 = args.get(5).and_then(|s| s.parse().ok()).unwrap_or(5000);
         let m = LoopModel::new(2, timeout, false, level);
+        let m = if std::env::var("LOCKSTEP").is_ok() { m.with_lockstep() } else { m };
+        let keys: &[&str] = if std::env::var("LOCKSTEP").is_ok() { &["real:", "lockstep:"] } else { &["real:"] };
         let k = if k == 98 { 0 } else { k };
         let mut rep = srtla_verif::evidence::Report::new();
         let t0 = std::time::Instant::now();
         let plan = if k == 99 { RealPlan::Full { depth } } else { RealPlan::Dev { k, depth, default: 0 } };
-        let cov = explore(&mut rep, &m, &plan, &["real:"], std::time::Duration::from_secs(600));
+        let cov = explore(&mut rep, &m, &plan, keys, std::time::Duration::from_secs(600));
         println!("{} {}: executions {} rounds {} distinct {} wall {:.1}s cov {:?}", m.name, plan.describe(), rep.traces, rep.transitions, rep.states, t0.elapsed().as_secs_f64(), cov);
         for v in &rep.violations {
             println!("  [{}] {}\n     {}", v.key, v.message, v.replay);
